@@ -394,7 +394,11 @@ func (p *Process) internalStop() error {
 }
 
 func (p *Process) stopProcess(cancelReadinessFuncs bool) error {
-	p.runCancelFn()
+	if cancelReadinessFuncs {
+		// an internal stop (readiness failure) must leave the restart policy
+		// in charge: only an external stop cancels the run context
+		p.runCancelFn()
+	}
 	verifYield("stop.afterCancel", p.getName())
 	if !p.isRunning() {
 		log.Debug().Msgf("process %s is in state %s not shutting down", p.getName(), p.getStatusName())
